@@ -70,6 +70,25 @@ func (l *c15Listener) isClosed() bool {
 type c15Conn struct {
 	net.Conn
 	local, remote *net.TCPAddr
+	failArmWriteDeadline bool // SetWriteDeadline with a non-zero time fails (clearing it works): a broken connection among healthy ones
+}
+
+func (c *c15Conn) SetWriteDeadline(t time.Time) error {
+	if c.failArmWriteDeadline && !t.IsZero() {
+		return errors.New("verif: injected SetWriteDeadline failure") //nolint:err113
+	}
+
+	return c.Conn.SetWriteDeadline(t)
+}
+
+func (c *c15Conn) SetDeadline(t time.Time) error {
+	if c.failArmWriteDeadline && !t.IsZero() {
+		_ = c.Conn.SetReadDeadline(t)
+
+		return errors.New("verif: injected SetWriteDeadline failure") //nolint:err113
+	}
+
+	return c.Conn.SetDeadline(t)
 }
 
 func (c *c15Conn) LocalAddr() net.Addr  { return c.local }
